@@ -486,6 +486,10 @@ func (rw *rewriter) call(n *ast.CallExpr) ast.Expr {
 				return rw.rtcall("Sleep", rw.site(n), n.Args[0])
 			case "time.AfterFunc":
 				return rw.rtcall("AfterFunc", rw.site(n), n.Args[0], n.Args[1])
+			case "context.WithTimeout":
+				return rw.rtcall("CtxWithTimeout", rw.site(n), n.Args[0], n.Args[1])
+			case "context.WithDeadline":
+				return rw.rtcall("CtxWithDeadline", rw.site(n), n.Args[0], n.Args[1])
 			case "math/rand/v2.Int64N":
 				return rw.rtcall("RandInt64N", n.Fun, n.Args[0])
 			}
